@@ -30,7 +30,19 @@ REAL_TO_SPEC = {v: k for k, v in SPEC_TO_REAL.items()}
 def _types():
     from lv.universe import tv_m1, tv_m2
     return {'m1.T': tv_m1.T, 'm2.T': tv_m2.T, 'm1.TX': tv_m1.TX, 'm1.TSub': tv_m1.TSub, 'm1.T_': tv_m1.T_, 'm1.T__V': tv_m1.T__V,
-            'm1.M5': tv_m1.M5}
+            'm1.M5': tv_m1.M5, 'm1.TE': tv_m1.TE}
+
+
+def _mk(cls, value):
+    """An instance of a grammar type whose varying parameter is `value`.  For the extended type TE (a task type that
+    subclasses the task type T and adds a parameter of its own) the varying parameter is the added one."""
+    if cls.__qualname__ == 'TE':
+        return cls(f1=1, f2=value)
+    return cls(f1=value)
+
+
+def _var(task):
+    return task.f2 if type(task).__qualname__ == 'TE' else task.f1
 
 
 def _tname(cls):
@@ -63,7 +75,7 @@ def to_py(node):
             d[to_py(c[i])] = to_py(c[i + 1])
         return d if k == 'dict' else frozendict(d)
     if k == 'task':
-        return _types()[a](f1=to_py(c[0]))
+        return _mk(_types()[a], to_py(c[0]))
     if k == 'set':
         return {1}
     if k == 'bytes':
@@ -197,7 +209,7 @@ def observe_case(cid, ty, raw, protocols, storage, lab):
     o = {'id': cid, 'ty': ty, 'raw': raw}
     try:
         value = to_py(raw)
-        task = cls(f1=value)
+        task = _mk(cls, value)
     except TaskError as ex:
         o.update(accepted=False, exc='TaskError')
         return o, None
@@ -205,7 +217,7 @@ def observe_case(cid, ty, raw, protocols, storage, lab):
         o.update(accepted=False, exc=type(ex).__name__, msg=str(ex)[:200])
         return o, None
     o.update(accepted=True, exc='')
-    o['norm'] = from_py(task.f1)
+    o['norm'] = from_py(_var(task))
     # frozen
     try:
         task.f1 = 5
@@ -215,7 +227,7 @@ def observe_case(cid, ty, raw, protocols, storage, lab):
     except BaseException:   # noqa
         o['frozen'] = True
     # equality / hashing against an independently built twin and against the other types
-    twin = cls(f1=to_py(copy.deepcopy(raw)))
+    twin = _mk(cls, to_py(copy.deepcopy(raw)))
     try:
         o['hashable'] = True
         h1, h2 = hash(task), hash(twin)
@@ -226,7 +238,7 @@ def observe_case(cid, ty, raw, protocols, storage, lab):
     neq = True
     for c in others:
         try:
-            neq = neq and (c(f1=to_py(copy.deepcopy(raw))) != task)
+            neq = neq and (_mk(c, to_py(copy.deepcopy(raw))) != task)
         except BaseException:   # noqa
             pass
     o['neq_other_types'] = bool(neq)
@@ -235,7 +247,7 @@ def observe_case(cid, ty, raw, protocols, storage, lab):
     o['key'] = key
     variants = {}
     variants['twin'] = twin.cache_key
-    variants['rebuilt_from_normalised'] = cls(f1=task.f1).cache_key
+    variants['rebuilt_from_normalised'] = _mk(cls, _var(task)).cache_key
     ser = Serializer()
     try:
         stask = ser.serialize_task(task)
@@ -297,6 +309,13 @@ def run_job(job, base: Path):
     storage = labtech.storage.LocalStorage(d / 'st')
     lab = labtech.Lab(storage=storage, context={'c': 1}, runner_backend='serial', notebook=False)
     out, tasks = [], {}
+    # instances of every grammar type exist in the process before the cases are built (a base type before the types that
+    # extend it, in particular)
+    for _cls in _types().values():
+        try:
+            _mk(_cls, 0)
+        except BaseException:   # noqa
+            pass
     for k, (ty, raw) in enumerate(job['cases']):
         o, task = observe_case(f'{job["id"]}-{k}', ty, raw, job.get('protocols', [pickle.HIGHEST_PROTOCOL]), storage, lab)
         out.append(o)
@@ -376,7 +395,7 @@ def run_job(job, base: Path):
                 before = dict(tv_m1.RUNS)
                 lab2 = labtech.Lab(storage=storage, context={'c': 2}, runner_backend='serial', notebook=False)
                 res = lab2.run_tasks([match[0]], disable_progress=True, disable_top=True)
-                o['listed_loads_stored'] = bool(tv_m1.RUNS == before and res[match[0]] == ['tv', type(task).__qualname__, repr(task.f1)])
+                o['listed_loads_stored'] = bool(tv_m1.RUNS == before and res[match[0]] == ['tv', type(task).__qualname__, repr(_var(task))])
             except BaseException as ex:   # noqa
                 o['listed_loads_stored'] = False
         else:
@@ -397,7 +416,7 @@ def keys_main(cases_file, out_file):
     for i in reversed(range(len(cases))):
         ty, raw = cases[i]
         try:
-            keys[i] = _types()[ty](f1=to_py(raw)).cache_key
+            keys[i] = _mk(_types()[ty], to_py(raw)).cache_key
         except BaseException as ex:   # noqa
             keys[i] = f'error:{type(ex).__name__}'
     json.dump(keys, open(out_file, 'w'))
